@@ -96,6 +96,7 @@ fn run_schedule(vals: &[Val], stream: &Rc<Vec<u8>>, complete: usize, on_boundary
     let st = Rc::new(RefCell::new(SrcState::default()));
     let src = ScriptSrc { data: stream.clone(), st: st.clone(), ch: ch.clone(), b };
     let mut r = match crate::sched::take_prebuf() { Some(b) => AsyncReader::with_buffer(src, b), None => AsyncReader::new(src) };
+    if let Some(m) = crate::sched::READER_MAX.with(|c| c.take()) { r.set_max_len(m) }
     let mut drops_left = b.drops;
     let mut drops_mid = 0;
     let mut surfaced_errors = 0;
@@ -197,6 +198,9 @@ fn random_walk(g: &mut Gen, st: &mut Stats) -> CaseResult {
     let ctor = crate::sched::draw_prebuf(g);
     let kind = *g.pick(&crate::sched::ERR_KINDS);
     crate::sched::set_err_kind(kind);
+    // a maximum that every frame of the walk respects: the default, the top of the u32 range, or exactly the largest frame
+    let largest = vals.iter().map(|v| v.encoded().len()).max().unwrap_or(0) as u32;
+    crate::sched::READER_MAX.with(|c| c.set(match g.below(8) { 0 => Some(u32::MAX), 1 => Some(u32::MAX - 3), 2 => Some(largest), 3 => Some(largest.max(1) + 1), _ => None }));
     let info = run_schedule(&vals, &stream, complete, on_boundary, ch, b)?;
     if info.errors > 0 { st.class(&format!("walk/transient error of kind {:?}", kind)) }
     st.class(&format!("walk/AsyncReader::{}", ctor));
